@@ -275,6 +275,13 @@ class Model:
                       (x.cls or '').split('.')[-1] == parts[-2])]
         if len(cands) == 1:
             return cands[0]
+        # a method turned into a module-level function (or the reverse) of
+        # the same, otherwise unused, name
+        cands = [x for q, x in self.funcs.items()
+                 if q.split('.')[-1] == parts[-1] and x.parent is None]
+        if len(cands) == 1 and parts[-1].startswith('_') and \
+                not parts[-1].startswith('__'):
+            return cands[0]
         if required:
             raise AnalysisError('anchor function not found: %s' % qual)
         return None
